@@ -11,9 +11,21 @@
      invisibility    C05_plain_ignores_hidden_subtree (unconditional), C05_hidden_blind_engine (+ _layouts, _replace)
                      for algorithms that are HiddenBlind.
    GRID part (Model/Placement.v; tables regenerated from the source): C05_grid_estimate_ignores_hidden.
+   ITEM GENERATION (Gen/FiltersGen.v: the iterator pipelines of generate_anonymous_flex_items, generate_item_list, and the two
+   child iterators of compute_grid_layout, TRANSLATED from the source on every run) -- discharges the part of HiddenBlind that
+   concerns which children become items:
+     C05_flex_items_ignore_hidden, C05_block_items_ignore_hidden, C05_grid_items_ignore_hidden
+                     the item lists do not depend on the styles of display:none children (for ANY item builder; flex / grid:
+                     `order` = source index; block: `order` counts box-generating children, so deleting the hidden children
+                     changes nothing at all)
+     C05_model_filters_are_source
+                     the hand-written filters of Model/Block.v (generate_item_list, run by C10's K1 / K2) and of
+                     Model/Placement.v (in_flow_children, estimate_children, run by the placement K) ARE the translated ones
    Interface hypotheses (premises, validated on the implementation by the metamorphic oracle `vh c05 oracle` and -- WF, H1 --
    by the event trace): WF, H1 (EngineDirty.v), SetsZeroOnHidden, HiddenBlind. *)
 From Coq Require Import List Bool Arith NArith ZArith QArith.
+From TV Require Import Num.Num Gen.BlockGen Model.Block.
+From TV Require Import Model.FiltersBase Gen.FiltersGen Model.ItemFilters Proofs.ItemFilters.
 From TV Require Import Num.QNum Model.Common Model.Leaf Model.Root Proofs.LeafProofs Proofs.HiddenRoot.
 From TV Require Import Model.Engine Model.EngineToy Proofs.EngineMemo Proofs.EngineDirty Proofs.EngineToyProofs
   Proofs.EngineHidden Proofs.EngineBlind Proofs.EngineHiddenToy.
@@ -212,6 +224,76 @@ Proof.
   split; [exact tz_algo_sets_zero|left; reflexivity].
 Qed.
 
+(* ---------------------------------------------------------------------------------------------- item generation *)
+
+(* agree_except ig f f' cs: the style assignments f, f' to the children cs agree except on children whose style is in the
+   class ig on both sides.  s_hidden bgm s := (bgm s == BoxGenerationMode::None). *)
+Theorem C05_flex_items_ignore_hidden :
+  forall (C S I : Type) (position : S -> GPosition) (bgm : S -> GBoxGenerationMode) (f f' : C -> S) (cs : list C)
+         (build : nat -> C -> S -> I),
+    agree_except (s_hidden bgm) f f' cs ->
+    flex_generate_items f position bgm build cs = flex_generate_items f' position bgm build cs.
+Proof.
+  intros C S I position bgm f f' cs build Ha. rewrite !flex_generate_items_nf. apply flex_nf_blind.
+  eapply agree_except_mono; [|exact Ha]. apply hidden_out_of_flow.
+Qed.
+
+Theorem C05_block_items_ignore_hidden :
+  forall (C S I : Type) (position : S -> GPosition) (bgm : S -> GBoxGenerationMode) (f f' : C -> S) (cs : list C)
+         (build : nat -> C -> S -> I),
+    (agree_except (s_hidden bgm) f f' cs ->
+     block_generate_items f position bgm build cs = block_generate_items f' position bgm build cs) /\
+    block_generate_items f position bgm build (filter (fun c => negb (s_hidden bgm (f c))) cs) =
+    block_generate_items f position bgm build cs /\
+    block_generate_items f position bgm build cs =
+    map (fun oc => build (fst oc) (snd oc) (f (snd oc))) (g_enumerate (filter (fun c => negb (s_hidden bgm (f c))) cs)).
+Proof.
+  intros C S I position bgm f f' cs build. split; [|split].
+  - intros Ha. rewrite !block_generate_items_nf. apply block_nf_hidden_blind. exact Ha.
+  - rewrite !block_generate_items_nf. apply block_nf_delete_hidden.
+  - apply block_generate_items_nf.
+Qed.
+
+Theorem C05_grid_items_ignore_hidden :
+  forall (C S : Type) (position : S -> GPosition) (bgm : S -> GBoxGenerationMode) (f f' : C -> S) (cs : list C),
+    agree_except (s_hidden bgm) f f' cs ->
+    grid_in_flow_children f position bgm cs = grid_in_flow_children f' position bgm cs /\
+    grid_estimate_children f position bgm cs = grid_estimate_children f' position bgm cs.
+Proof.
+  intros C S position bgm f f' cs Ha. split.
+  - apply grid_in_flow_blind. eapply agree_except_mono; [|exact Ha]. apply hidden_out_of_flow.
+  - apply grid_estimate_hidden_blind. exact Ha.
+Qed.
+
+(* the hand-written models use the source's filters *)
+Theorem C05_model_filters_are_source :
+  (forall (T : Type) (N : Num T) (sts : list (BStyle T)) nis,
+     generate_item_list sts nis =
+     block_generate_items (fun st => st) bs_position bs_bgm (fun order _ st => generate_item st nis (Z.of_nat order)) sts) /\
+  (forall (C S : Type) (position : S -> GPosition) (bgm : S -> GBoxGenerationMode) (style_of : C -> S) (placement : S -> child)
+          (cs : list C),
+     let children := map (fun c => (kind_of (position (style_of c)) (bgm (style_of c)), placement (style_of c))) cs in
+     in_flow_children children =
+       map (fun ics : nat * C * S => (Z.of_nat (fst (fst ics)), placement (snd ics))) (grid_in_flow_children style_of position bgm cs) /\
+     estimate_children children = map placement (grid_estimate_children style_of position bgm cs)).
+Proof.
+  split.
+  - intros T N sts nis. apply generate_item_list_is_generated.
+  - intros C S position bgm style_of placement cs children. split;
+      [apply placement_in_flow_is_generated|apply placement_estimate_is_generated].
+Qed.
+
+(* the premise is satisfiable: a bare display:none style in place of any display:none style *)
+Example C05_items_example :
+  forall (S : Type) (bgm : S -> GBoxGenerationMode) (a b bare : S),
+    s_hidden bgm b = true -> s_hidden bgm bare = true ->
+    agree_except (s_hidden bgm) (fun c : S => c) (fun c => if s_hidden bgm c then bare else c) [a; b].
+Proof.
+  intros S bgm a b bare Hb Hbare. constructor; [|constructor; [|constructor]].
+  - cbv beta. destruct (s_hidden bgm a) eqn:E; [right; split; [reflexivity|assumption]|left; reflexivity].
+  - cbv beta. rewrite Hb. right. split; [reflexivity|assumption].
+Qed.
+
 (* ---------------------------------------------------------------------------------------------- grid placement *)
 
 (* the placement section of compute_grid_layout (size estimate + placement + what detailed_layout_info reports) cannot see
@@ -248,3 +330,7 @@ Print Assumptions C05_hidden_blind_engine_step.
 Print Assumptions C05_hidden_blind_layouts.
 Print Assumptions C05_hidden_blind_replace.
 Print Assumptions C05_grid_estimate_ignores_hidden.
+Print Assumptions C05_flex_items_ignore_hidden.
+Print Assumptions C05_block_items_ignore_hidden.
+Print Assumptions C05_grid_items_ignore_hidden.
+Print Assumptions C05_model_filters_are_source.
